@@ -36,7 +36,10 @@ func main() {
 			fmt.Fprintln(os.Stderr, err)
 			os.Exit(3)
 		}
-		fmt.Printf("replaying %s: property=%s seed=%d tier=%s (case lists are a pure function of seed and tier)\n%s\n", *replay, rp.Property, rp.Seed, rp.Tier, b)
+		if ok, rc := props.ReplayCase(rp.Property, b); ok {
+			os.Exit(rc)
+		}
+		fmt.Printf("replaying %s: property=%s seed=%d tier=%s (this property re-runs its case list, a pure function of seed and tier)\n", *replay, rp.Property, rp.Seed, rp.Tier)
 		os.Exit(run(rp.Property, rp.Tier, rp.Seed))
 	}
 	if flag.NArg() != 1 {
